@@ -2,11 +2,11 @@
 import json, os, sys
 VERIF = os.path.dirname(os.path.dirname(os.path.abspath(__file__)))
 sys.path.insert(0, VERIF)
-from checks.registry import CLAIMS, ENGINES, NOT_APPLICABLE  # noqa
+from checks.registry import ACCEPTED, CLAIMS, ENGINES, NOT_APPLICABLE  # noqa
 import glob
 for f in sorted(glob.glob(os.path.join(VERIF, "checks", "C*.claim.json"))):
     pid = os.path.basename(f).split(".")[0]
-    if pid not in CLAIMS and os.path.exists(os.path.join(VERIF, "checks", pid + ".py")):
+    if pid not in CLAIMS and pid in ACCEPTED and os.path.exists(os.path.join(VERIF, "checks", pid + ".py")):
         CLAIMS[pid] = json.load(open(f))
 ENG_KIND = {
     "params": "TLA+ specs of the parameter transforms (pure functions as one-step machines); TLC enumerates inputs; one real call per TLC case, validated by trace specs",
